@@ -70,7 +70,9 @@ fn c04_local_utc_identity() {
             assert!(dt.naive_local() == l);
             assert!(dt.offset().local_minus_utc() == s);
             // the stored UTC reading is in range
-            assert!(dt.naive_utc() >= NaiveDateTime::MIN && dt.naive_utc() <= NaiveDateTime::MAX);
+            // (a leap-second value on the last second of NaiveDate::MAX is a valid NaiveDateTime that orders after
+            // NaiveDateTime::MAX, so the range is stated on the date)
+            assert!(dt.naive_utc().date() >= NaiveDate::MIN && dt.naive_utc().date() <= NaiveDate::MAX);
             kani::cover!(dt.naive_utc().date() != l.date());
         }
         LocalResult::None => {
